@@ -15,6 +15,7 @@ import (
 
 const subProduct = "zip-based (jar, apk, xap, vsix): canonical base archive x ONE hazard at a time (thorough: also every unordered pair of hazards; a pair's failure that one component shows alone is attributed to that component) " +
 	"+ for jar the manifest line-length boundaries (JAR specification: no line longer than 72 bytes, read with or without the line end: a writer breaks after 70 or 72 bytes, continuation lines after 69 or 71 more): a header line of 69..73 and of 138..144 bytes, once as a main attribute and once as the Name of a per-entry section with a non-digest attribute (24 hazards) " +
+	"+ for jar the product manifest line-end style {LF, CR LF, CR, mixed (sections take CR, LF, CR LF in turn)} x header line of every length 69..139 bytes (one full wrap period, first break to second break: every later line end takes every position relative to a break) x {main attribute, Name of a per-entry section with a non-digest attribute} (568 shapes) " +
 	"+ for xap/apk the gen/zipgen single-member feature family (every member feature value x every archive feature, one at a time); " +
 	"pe-coff: {PE32,PE32+} x bss section {no,yes} x unaligned last section {no,yes} x overlay {0,1,7,8,9} x header gap {0,1} (full product; thorough: + NumberOfRvaAndSizes {4,5,6} x overlay {0,1}); " +
 	"msi: gen/cfbgen families layout, names, storage, dircount (quick) + sizes(1 ordered, 2 multiset) (thorough: sizes(2,3), fat-full); " +
@@ -62,6 +63,19 @@ func allShapes(thorough bool) []shape {
 					add(shape{ID: typ + "/" + a.Name + "+" + b.Name, Type: typ, PType: typ, Ext: "." + typ, Hazard: a.Name + "+" + b.Name, Source: "generated", Parts: []string{typ + "/" + a.Name, typ + "/" + b.Name},
 						Build: func() []byte { z := shapes.ZipBase(typ); a.Apply(&z); b.Apply(&z); return z.Build() }})
 				}
+			}
+		}
+	}
+	// JAR manifest: line-end style x header line length over one full wrap period
+	// x {main attribute, per-entry Name} (a product of its own, both tiers; not
+	// part of the hazard pairs)
+	for _, style := range shapes.ManifestLineEndStyles {
+		for _, kind := range []string{"main", "entry"} {
+			for _, h := range shapes.ManifestWrapPeriod() {
+				style, kind, h := style, kind, h
+				add(shape{ID: fmt.Sprintf("jar/manifest-line-ends-%s/%s-line-of-%d-bytes", style, kind, h), Type: "jar", PType: "jar", Ext: ".jar",
+					Hazard: fmt.Sprintf("manifest-line-ends-%s+%s-line-length", style, kind), Source: "generated",
+					Build: func() []byte { a := shapes.StyledJar(style, kind, h); return a.Build() }})
 			}
 		}
 	}
